@@ -135,6 +135,14 @@ CLAIMED = {
              "(all four SocketAddr combinations, flow-info and scope set, Unix paths differing in one byte).",
         ref="7-C19", technique="Coq statements (trivial) + differential correspondence and field-by-field oracle on constructors",
         note=TIE + " For this property the proof layer is nearly vacuous (immutable records); the check is, in effect, exhaustive-by-shape differential testing."),
+    "C03": dict(
+        text="Theorems C03_v1_bytes/str/from_str, C03_v2, C03_auto, C03_v2_views, C03_v1_views, C03_tlv (Props/C03.v): a panic-aware "
+             "mirror of the parsing surface (Model/Panic.v: every index, byte/str slice, usize +/-, copy_from_slice is a partial "
+             "primitive) never takes its Panic branch, for every byte string < 2^63 bytes resp. every valid-UTF-8 string, and "
+             "computes the plain model; accessors likewise on every accepted value; TLV iteration terminates within n/3+1 items. "
+             "PARTIAL: panics/hangs originating in std, the allocator or unsafe code are only observed: every case of every "
+             "stream runs under catch_unwind in a debug (overflow-checked) and a release build with step counting.",
+        ref="7-C03", technique="Coq proof (panic-aware model never panics) + observation under catch_unwind in debug and release builds"),
 }
 
 NOT_YET = "not yet claimed: model, theorems and correspondence stream for this property are still being built (DESIGN 10.4)"
